@@ -29,9 +29,9 @@ func init() {
 		Assumptions: []string{"root", "selectors select the link source of every hard link they select", "a directory named .fsutil-metadata in the source is empty"},
 		Cases: func(tier string) int {
 			if tier == "thorough" {
-				return 8000
+				return 15000
 			}
-			return 500
+			return 1000
 		},
 		Batch:         25,
 		MinNontrivial: func(tier string) int { return 100 },
